@@ -7,7 +7,7 @@ metamorphic (linearity) relation that justifies sampling the two large message s
 """
 from __future__ import annotations
 
-from bitarray import bitarray
+from bitarray import bitarray, frozenbitarray
 from bitarray.util import int2ba
 
 from vp.core import Ctx, Fail, SubCheck, Tally, call
@@ -21,7 +21,8 @@ RULE = (
     "0x00, 0x01, 0x80, 0xFF, ... over eight fixed backgrounds) and Hypothesis-drawn 28-bit messages.  (128,72): zero word, "
     "all-ones, the 72 unit messages, the same deterministic boundary set (checksum solved to 0, 1, 16, 30, 15, 29 over seven "
     "fixed backgrounds), a directed set built by construction to hit every checksum value 0..30 (eight random octets + one octet "
-    "solved for the target; all-0xFF / carry-heavy octets) and Hypothesis-drawn 72-bit messages.  linearity: Hypothesis "
+    "solved for the target; all-0xFF / carry-heavy octets) and Hypothesis-drawn 72-bit messages.  containers: the same messages (all 2^11 x both parities for (32,11); basis + boundary + Hypothesis-drawn for the other two) "
+    "held in a little-endian bitarray / frozenbitarray of either endianness.  linearity: Hypothesis "
     "pairs (a,b) per code.  A case is (code, message[, parity]); distinct by hash.  Non-trivial: non-zero message; for "
     "(128,72) additionally the 5-bit checksum is not a bit palindrome (a palindromic checksum cannot see the order of the "
     "checksum bits); for linearity a, b, a^b all non-zero."
@@ -36,7 +37,13 @@ ASSUMPTIONS = [
     "checksum conventions of the library's extractors are the ones the repository's own tests assert: "
     "deinterleave_cs5_bits == int2ba(cs, 5) (CS4 first); deinterleave_crc8_bits == int2ba(crc, 8, endian='little') "
     "(bit-reversed, pinned by test_vbptc_68_36)",
-    "big-endian bitarray inputs only (what every caller in the library passes)",
+    "main sub-checks use big-endian bitarrays (what every caller in the library passes).  Sub-check `containers` adds the "
+    "representation variants the unchanged tree gets right: every extractor and encode(de-interleaved matrix) in little-endian "
+    "bitarrays and frozenbitarrays; encode(message) / encode(message+checksum) fully for (32,11) and for big-endian "
+    "frozenbitarrays.  NOT claimed: the checksum bits that (128,72)/(68,28) encode for a message held in a LITTLE-endian "
+    "container - /repo computes CS5 over tobytes() and CRC-8 through the CRC register, both read the container's endianness "
+    "flag, so the codeword carries the checksum of the octet-wise bit-reversed message (195 of 200 / 199 of 200 random "
+    "messages); this is the little-endian limitation of C05's domain, only round trip and row / column rules are judged there",
 ]
 
 CODES = {
@@ -241,6 +248,136 @@ def oracle_code(case):
         st, r2 = call(fn, argument.copy(), **kw)
         if _ba(r2) != saved:
             raise Fail("repeated_call_equal_after_scribbling_on_returned_buffer_and_argument", _diff(r2, saved), "no difference", klass=name)
+
+
+# ---------------------------------------------------------------------------------------------- container variants
+
+CONTAINERS = ("little", "frozen_big", "frozen_little")
+
+
+def _container(bits, kind: str):
+    """the same bit sequence in another container: little-endian bitarray, frozenbitarray (either endianness)"""
+    b = bitarray([int(x) for x in bits], endian="little" if "little" in kind else "big")
+    return frozenbitarray(b) if kind.startswith("frozen") else b
+
+
+def _rows_cols(code, el, even):
+    if code == "128_72":
+        mat, hcode, ndata = bptc_ref.vbptc128_to_matrix(el), "hamming_16_11_4", 7
+    elif code == "68_28":
+        mat, hcode, ndata = bptc_ref.vbptc68_to_matrix(el), "hamming_17_12_3", 3
+    else:
+        mat, hcode, ndata = bptc_ref.vbptc32_to_matrix(el), "hamming_16_11_4", 1
+    hk = gf2.CODES[hcode][1]
+    for r in range(ndata):
+        exp = gf2.ref_encode(hcode, mat[r][:hk])
+        if mat[r] != exp:
+            raise Fail("data_row_is_hamming_codeword", {"row": r, "bits": "".join(map(str, mat[r]))}, "".join(map(str, exp)))
+    want = 0 if even else 1
+    for c in range(len(mat[0])):
+        p = sum(mat[r][c] for r in range(len(mat))) & 1
+        if p != want:
+            raise Fail("column_parity", {"column": c, "parity": p}, want)
+
+
+def oracle_container(case):
+    """case = {code, msg, container[, even]}: the message (and the other accepted input forms, and the extractors' input) is
+    handed over in another CONTAINER holding the same bit sequence.  Expected values come from the bit sequence (reference),
+    never from the container.  Clause table = what the unchanged tree gets right (probed on /repo when this was written):
+      * every extractor, every container: same result as for the plain big-endian bitarray;
+      * encode(fully de-interleaved matrix), every container: the reference codeword;
+      * encode(message) and encode(message+checksum): the reference codeword for (32,11) in every container and for all three
+        codes in a big-endian frozenbitarray; for (128,72)/(68,28) in LITTLE-endian containers only extractor round trip and
+        the row / column rules (the library's checksum helpers read such a container through tobytes() / the CRC register,
+        both of which depend on the endianness flag - outside the big-endian domain of C05, see ASSUMPTIONS)."""
+    code, kind = case["code"], case["container"]
+    k, n, _ = CODES[code]
+    V = lib(code)
+    ml = msg_bits(code, case["msg"]).tolist()
+    even = bool(case.get("even", True))
+    kw = {} if code != "32_11" else {"even_parity": even}
+    if code == "128_72":
+        ref, cs_bits = bptc_ref.vbptc128_encode(ml), gf2.int_to_bits(bptc_ref.cs5(ml), 5)
+        kw_plain, kw_cs, cs_ext = {"include_cs5": False}, {"include_cs5": True}, V.deinterleave_cs5_bits
+    elif code == "68_28":
+        ref, cs_bits = bptc_ref.vbptc68_encode(ml), gf2.int_to_bits(bptc_ref.crc8(ml), 8)[::-1]
+        kw_plain, kw_cs, cs_ext = {"include_crc8": False}, {"include_crc8": True}, V.deinterleave_crc8_bits
+    else:
+        ref, cs_bits = bptc_ref.vbptc32_encode(ml, even), None
+        kw_plain, kw_cs, cs_ext = {}, None, None
+    full = code == "32_11" or kind == "frozen_big"
+
+    def judge_encoding(what, arg_bits):
+        arg = _container(arg_bits, kind)
+        st, enc = call(V.encode, arg, **kw)
+        endian = arg.endian() if callable(arg.endian) else arg.endian
+        if arg.tolist() != [int(x) for x in arg_bits] or endian != ("little" if "little" in kind else "big"):
+            raise Fail("encode_does_not_mutate_input", arg.to01(), "".join(map(str, arg_bits)), klass=f"{kind}:{what}")
+        el = _ba(enc).tolist()
+        if len(el) != n:
+            raise Fail("encoded_length", len(el), n, klass=f"{kind}:{what}")
+        if full:
+            if el != ref:
+                raise Fail("container_encode_equals_reference", _diff(el, ref), "no difference", klass=f"{kind}:{what}")
+        else:
+            st, dec = call(V.deinterleave_data_bits, bitarray(el), **kw_plain)
+            if _ba(dec).tolist() != ml:
+                raise Fail("container_extractor_returns_message", _ba(dec).to01(), "".join(map(str, ml)), klass=f"{kind}:{what}")
+            _rows_cols(code, el, even)
+
+    judge_encoding("message", ml)
+    if cs_bits is not None:
+        judge_encoding("message+checksum", ml + cs_bits)
+    st, de_all = call(V.deinterleave_all_bits, bitarray(ref))
+    de_all = _ba(de_all).tolist()
+    st, e3 = call(V.encode, _container(de_all, kind), **kw)
+    if _ba(e3).tolist() != ref:
+        raise Fail("container_encode_equals_reference", _diff(e3, ref), "no difference", klass=f"{kind}:deinterleaved matrix")
+
+    # extractors fed with the codeword in the container
+    st, d0 = call(V.deinterleave_data_bits, _container(ref, kind), **kw_plain)
+    if _ba(d0).tolist() != ml:
+        raise Fail("container_extractor_returns_message", _ba(d0).to01(), "".join(map(str, ml)), klass=f"{kind}:codeword in container")
+    st, d1 = call(V.deinterleave_all_bits, _container(ref, kind))
+    if _ba(d1).tolist() != de_all:
+        raise Fail("container_deinterleave_all_same_as_big_endian", _diff(d1, de_all), "no difference", klass=kind)
+    if cs_bits is not None:
+        st, d2 = call(V.deinterleave_data_bits, _container(ref, kind), **kw_cs)
+        if _ba(d2).tolist() != ml + cs_bits:
+            raise Fail("container_extractor_returns_message_with_checksum", _ba(d2).to01(), "".join(map(str, ml + cs_bits)), klass=kind)
+        st, d3 = call(cs_ext, _container(ref, kind))
+        if _ba(d3).tolist() != cs_bits:
+            raise Fail("container_checksum_extractor", _ba(d3).to01(), "".join(map(str, cs_bits)), klass=kind)
+
+
+def drv_containers(ctx: Ctx, sub: SubCheck):
+    _preimport()
+    from hypothesis import strategies as st
+
+    # (32,11): complete; the other two: basis + boundary (deterministic) in every container, then Hypothesis
+    items = [{"code": "32_11", "msg": m, "even": even, "container": kind} for m in range(2048) for even in (True, False) for kind in CONTAINERS]
+    for code in ("68_28", "128_72"):
+        for v in _basis(code) + _boundary(code, ctx):
+            items += [{"code": code, "msg": _hex(code, v), "container": kind} for kind in CONTAINERS]
+
+    def work(chunk, t: Tally):
+        for c in chunk:
+            ctx.run_case(sub.name, oracle_container, c, t)
+            t.case(sub.name, key=None, nontrivial=(int(c["msg"], 16) if isinstance(c["msg"], str) else c["msg"]) != 0, cls=f"{c['code']}:{c['container']}")
+        t.sample(sub.name, chunk[len(chunk) // 2])
+
+    ctx.shards(work, [items[i::64] for i in range(64)])
+
+    def strat(code):
+        k = CODES[code][0]
+        return st.tuples(st.integers(0, (1 << k) - 1), st.sampled_from(CONTAINERS)).map(lambda x: {"code": code, "msg": _hex(code, x[0]), "container": x[1]})
+
+    def hyp(it, t: Tally):
+        code, i = it
+        ctx.hypothesis(sub.name, strat(code), oracle_container, ctx.pick(200, 4000), tally=t, shard=f"{code}/{i}",
+                       record=lambda c, tt: tt.case(sub.name, key=c, nontrivial=int(c["msg"], 16) != 0, cls=f"{c['code']}:{c['container']}"))
+
+    ctx.shards(hyp, [(code, i) for code in ("68_28", "128_72") for i in range(8)])
 
 
 def _diff(a, b):
@@ -452,6 +589,7 @@ SUBCHECKS = [
     SubCheck("sb_32_11", oracle_code, drv_32, "single-burst (32,11): all 2^11 messages x both parities: reference codeword, rows/columns, round trip, re-encoding"),
     SubCheck("cach_68_28", oracle_code, _drv_sampled("68_28", 750, 13000), "CACH short LC (68,28): basis + random messages: reference codeword, CRC-8 read-back, rows/columns, round trip, three-way re-encoding"),
     SubCheck("emb_128_72", oracle_code, _drv_sampled("128_72", 750, 13000, _directed_128), "embedded LC (128,72): basis + checksum-directed + random messages: reference codeword, 5-bit checksum read-back, rows/columns, round trip, three-way re-encoding"),
+    SubCheck("containers", oracle_container, drv_containers, "representation variants: the same bit sequences in little-endian bitarrays and frozenbitarrays (both endiannesses) through every encoder input form and every extractor; (32,11) complete"),
     SubCheck("linearity", oracle_linearity, drv_linearity, "GF(2)-(affine) linearity of the encoders on random pairs; (128,72) residual confined to checksum-dependent positions"),
 ]
 PREDICATES = {}
